@@ -52,6 +52,7 @@ def run(ctx):
             trackers.append((b, c))
     ctx.floor("R04.1", "sites releasing the waiting wakers", len(trackers), 1)
     tracker_bodies = {}
+    virtual_release = {}      # body def -> call blocks of helpers that release the wakers
     for b, c in trackers:
         dom = b.dominators()
         key = fnkey(b) + "#flush-dominates-wake"
@@ -67,6 +68,35 @@ def run(ctx):
             elif always_reaches(F, b, is_stream_flush, 0) and is_stream_flush(x):
                 flushers.append((x, None))
         good = [(x, p) for x, p in flushers if dominates(b, x.bb, c.bb, dom) and x.bb != c.bb]
+        if not good and not flushers:
+            # a helper that only releases: the flush must dominate every call of the helper (one level up)
+            callers = F.callers_of(b.path, crates=[BG])
+            up = []
+            for cs in callers:
+                cb = cs.body
+                cdom = cb.dominators()
+                fl = []
+                for x in cb.calls():
+                    if x.is_trait_method("FnOnce", "call_once") or x.is_trait_method("FnMut", "call_mut") or x.is_trait_method("Fn", "call"):
+                        src = Prov(cb).operand(x.args[0]) if x.args else set()
+                        params = [o[1] for o in src if o[0] == "arg"]
+                        if params:
+                            fl.append((x, params[0]))
+                    elif is_stream_flush(x):
+                        fl.append((x, None))
+                g2 = [(x, p_) for x, p_ in fl if dominates(cb, x.bb, cs.bb, cdom) and x.bb != cs.bb]
+                up.append((cs, g2))
+            okh = bool(up) and all(g2 for _, g2 in up)
+            ctx.check(okh, "R04.1", key, loc(b, c.bb),
+                      "the waiting flush wakers are released (%s) in a helper, and not every call of the helper is dominated by the stream flush: "
+                      "a flush future could complete before the entries appended before it are flushed" % c.name,
+                      "release helper; every call site (%s) is dominated by the flush" % [fnkey(cs.body).split("::")[-1] for cs, _ in up])
+            for cs, g2 in up:
+                virtual_release.setdefault(cs.body.def_, set()).add(cs.bb)
+                for x, p_ in g2:
+                    if p_ is not None:
+                        tracker_bodies.setdefault(cs.body.def_, (cs.body, set()))[1].add(p_)
+            continue
         ctx.check(bool(good), "R04.1", key, loc(b, c.bb),
                   "the waiting flush wakers are released (%s) without a dominating stream flush: a flush future could complete before "
                   "the entries appended before it are flushed" % c.name, "flush call bb%s dominates %s bb%d" % ([x.bb for x, _ in good], c.name, c.bb))
@@ -168,6 +198,22 @@ def run(ctx):
         bound_calls = {x.bb for x in tb.calls() if (x.is_trait_method("FnOnce", "call_once") or x.is_trait_method("FnMut", "call_mut") or x.is_trait_method("Fn", "call"))
                        and not x.dest.get("p") and tb.local_ty(x.dest["l"]) == "usize"}
         stores = {}      # field -> [(bb, origins)]
+        # helpers called on the tracker itself: their stores / pushes count at the call site (one level)
+        helper_calls = []
+        for x in tb.calls():
+            if x.args and any(y[0] == "arg" and y[1] == 1 and not y[2] for y in pr.operand(x.args[0])):
+                for hb in local_callee_bodies(F, x):
+                    if hb.crate == BG and hb.path.startswith(BGMOD) and hb is not tb and hb.arg_count >= 1 and tb.locals[1]["ty"] == hb.locals[1]["ty"]:
+                        helper_calls.append((x, hb))
+        for x, hb in helper_calls:
+            hpr = Prov(hb)
+            for i in hb.live_blocks():
+                for st in hb.stmts(i):
+                    if st["k"] == "assign" and has_deref(st["lhs"]) and len(place_fields(st["lhs"])) == 1 and any(y[0] == "arg" and y[1] == 1 for y in hpr.local(st["lhs"]["l"])):
+                        o = hpr.operand(st["rv"]["op"]) if st["rv"]["k"] == "use" else {("op", st["rv"]["k"])}
+                        # only constants survive the call boundary unchanged; anything else is opaque here
+                        o2 = {y for y in o if y[0] == "const"} or {("op", "helper:" + hb.name)}
+                        stores.setdefault(place_fields(st["lhs"])[0], []).append((x.bb, o2))
         for i in tb.live_blocks():
             for st in tb.stmts(i):
                 if st["k"] != "assign":
@@ -187,9 +233,14 @@ def run(ctx):
         if len(counters) != 1:
             continue
         cf = counters[0]
-        releases = {c.bb for b_, c in trackers if b_ is tb}
-        pushes = [x for x in tb.calls() if x.is_in("alloc::vec", "Vec::push", "Vec::extend", "Vec::append") and x.args and
-                  any(y[0] == "arg" and y[1] == 1 and y[2] and y[2][-1] in wvf for y in pr.operand(x.args[0]))]
+        releases = {c.bb for b_, c in trackers if b_ is tb} | virtual_release.get(tb.def_, set())
+        is_push = lambda bd, bpr, x: x.is_in("alloc::vec", "Vec::push", "Vec::extend", "Vec::append") and x.args and \
+            any(y[0] == "arg" and y[1] == 1 and y[2] and y[2][-1] in wvf for y in bpr.operand(x.args[0]))
+        pushes = [x for x in tb.calls() if is_push(tb, pr, x)]
+        for x, hb in helper_calls:
+            hpr = Prov(hb)
+            if any(is_push(hb, hpr, y) for y in hb.calls()):
+                pushes.append(x)
         ctx.floor("R04.4", "sites collecting new flush signals into the waiting vector", len(pushes), 1)
         rets = set(tb.return_blocks())
         for bb_, o in stores[cf]:
